@@ -83,7 +83,7 @@ pub fn traffic<F: Fl, const TOPO: u8, const OUTER: usize, const L0: u8, const L1
     payload::reset();
     sched::configure(c.depth, c.budget, c.kinds, c.per_site);
     let mut w = World::<F>::new(c.cap);
-    set_world::<F>(&mut w);
+    set_world::<F>(&mut *w);
     let nstreams: u8 = if TOPO == 3 { 2 } else { 1 };
     if c.multi_writer {
         w.tx[2] = Some(F::clone_tx(w.tx[0].as_ref().unwrap()));
@@ -222,7 +222,7 @@ pub fn traffic<F: Fl, const TOPO: u8, const OUTER: usize, const L0: u8, const L1
         }
         teardown::<F>(&mut w);
     } else {
-        std::mem::forget(w);
+        let _ = &w; // ManuallyDrop: never dropped
     }
 }
 
